@@ -351,8 +351,10 @@ class NetworkGraph(AbstractBaseIR):
 
         # check whether edge delays have to be implemented or can be ignored
         max_delay = np.max(means)
+        # (with an adaptive solver `step_size` is only the initial step: every positive delay is a real delay there)
+        min_float_delay = 0.0 if self.step_size_adaptation else self.step_size
         add_delay = ("int" in str(type(max_delay)) and max_delay > 1) or \
-                    ("float" in str(type(max_delay)) and max_delay > self.step_size)
+                    ("float" in str(type(max_delay)) and max_delay > min_float_delay)
         if sum(stds) == 0:
             stds = None
 
